@@ -192,3 +192,224 @@ def api_witness_f4(slice_, timeout):
 def api_witness_f4__replay(slice_, cex):
     r = api_witness_f4(slice_, 0)
     return {'reproduced': r['state'] == 'counterexample', 'detail': r['detail']}
+
+
+# ---- the compound arithmetic traced from the REAL __merge_compound_unit (proxies for the two numbers) ----------------------------
+import sys as _sys  # noqa: E402
+_PMOD = _sys.modules['recognizers_number_with_unit.number_with_unit.parsers']
+
+
+class _Tr:
+    """a traced number: a z3 term built by the arithmetic the real code performs on it.  mode 'fp': IEEE double terms (round to
+    nearest even, what Python floats do); mode 'real': exact reals, a concrete Python float operand entering with its exact value"""
+    MODE = 'real'
+
+    def __init__(self, t):
+        self.t = t
+
+    @staticmethod
+    def _lift(x):
+        import z3
+        if isinstance(x, _Tr):
+            return x.t
+        if isinstance(x, (int, float)) and not isinstance(x, bool):
+            if _Tr.MODE == 'fp':
+                return z3.FPVal(float(x), z3.Float64())
+            from fractions import Fraction
+            fr = Fraction(x)
+            return z3.RealVal(fr.numerator) / z3.RealVal(fr.denominator)
+        raise TypeError('traced number combined with %r' % (x,))
+
+    def _bin(self, o, fp, real, swap=False):
+        import z3
+        a, b = self.t, _Tr._lift(o)
+        if swap:
+            a, b = b, a
+        return _Tr(fp(z3.RNE(), a, b) if _Tr.MODE == 'fp' else real(a, b))
+
+    def __add__(self, o):
+        import z3
+        return self._bin(o, z3.fpAdd, lambda a, b: a + b)
+
+    def __radd__(self, o):
+        import z3
+        return self._bin(o, z3.fpAdd, lambda a, b: a + b, True)
+
+    def __sub__(self, o):
+        import z3
+        return self._bin(o, z3.fpSub, lambda a, b: a - b)
+
+    def __mul__(self, o):
+        import z3
+        return self._bin(o, z3.fpMul, lambda a, b: a * b)
+
+    def __rmul__(self, o):
+        import z3
+        return self._bin(o, z3.fpMul, lambda a, b: a * b, True)
+
+    def __truediv__(self, o):
+        import z3
+        return self._bin(o, z3.fpDiv, lambda a, b: a / b)
+
+    def __bool__(self):
+        return True          # the harness assumes a non-zero amount (N >= 1)
+
+
+class _NumText:
+    """what UnitValue.number holds (the resolution string of the inner number); float() of it is the traced number"""
+    def __init__(self, tr):
+        self.tr = tr
+
+    def __bool__(self):
+        return True
+
+
+def _traced_float(x):
+    if isinstance(x, _NumText):
+        return x.tr
+    if isinstance(x, _Tr):
+        return x
+    return float(x)
+
+
+class _Capture:
+    def format(self, v):
+        return v             # culture_info.format(number_value): hand the traced amount back unchanged
+
+
+def fraction_pairs():
+    """(main unit name, ISO, fraction unit name, ratio) for every pair the real English configuration wires together"""
+    cfg = EnglishCurrencyParserConfiguration()
+    from recognizers_number_with_unit.number_with_unit.utilities import DictionaryUtility as DU
+    out = []
+    for main, iso in sorted(cfg.currency_name_to_iso_code_map.items()):
+        fus = cfg.currency_fraction_mapping.get(iso)
+        if not iso or iso.startswith(UC.FAKE_ISO_CODE_PREFIX) or not fus:
+            continue
+        um = {}
+        DU.bind_units_string(um, '', fus)
+        for fname, code in sorted(cfg.currency_fraction_code_list.items()):
+            ratio = cfg.currency_fraction_num_map.get(fname)
+            if code in um and ratio:
+                out.append((main, iso, fname, ratio))
+    return out
+
+
+def _trace_compound(main, fname, Nt, Mt):
+    """run the real BaseCurrencyParser.__merge_compound_unit on [main amount, fraction amount]; returns the traced value term, unit, iso"""
+    cfg = EnglishCurrencyParserConfiguration()
+    cfg.culture_info = _Capture()
+    p = BaseCurrencyParser(cfg)
+
+    class _NWU:
+        def parse(self, er):
+            pr = ParseResult(er)
+            pr.value = UnitValue(_NumText(Nt if er.data == 'main' else Mt), main if er.data == 'main' else fname)
+            pr.resolution_str = 'R'
+            return pr
+    p.number_with_unit_parser = _NWU()
+    e1, e2 = ExtractResult(), ExtractResult()
+    e1.start, e1.length, e1.text, e1.type, e1.data = 0, 5, 'AAAAA', UC.SYS_UNIT_CURRENCY, 'main'
+    e2.start, e2.length, e2.text, e2.type, e2.data = 10, 4, 'BBBB', UC.SYS_UNIT_CURRENCY, 'frac'
+    comp = ExtractResult()
+    comp.start, comp.length, comp.text, comp.type, comp.data = 0, 14, 'AAAAA and BBBB', UC.SYS_UNIT_CURRENCY, [e1, e2]
+    saved = getattr(_PMOD, 'float', None)
+    _PMOD.float = _traced_float
+    try:
+        pr = p._BaseCurrencyParser__merge_compound_unit(comp)
+    finally:
+        if saved is None:
+            del _PMOD.float
+        else:
+            _PMOD.float = saved
+    return pr
+
+
+def compound_real(slice_, timeout):
+    """every (main unit, fraction unit) pair of the real tables, batch `b` of `nb`: the real merge code, traced over exact reals,
+    yields ONE entity spanning both parts, the main unit and its ISO code, worth N + M/ratio up to the rounding of the constant 1/ratio"""
+    import z3
+    pairs = fraction_pairs()
+    b, nb = slice_.get('b', 0), slice_.get('nb', 1)
+    mine = pairs[b::nb]
+    _Tr.MODE = 'real'
+    N, M = z3.Int('N'), z3.Int('M')
+    q = st = 0
+    for main, iso, fname, ratio in mine:
+        pr = _trace_compound(main, fname, _Tr(z3.ToReal(N)), _Tr(z3.ToReal(M)))
+        vals = pr.value
+        ok = isinstance(vals, list) and len(vals) == 1 and isinstance(vals[0].value.number, _Tr) and vals[0].value.unit == main \
+            and getattr(vals[0].value, 'iso_currency', iso) == iso and vals[0].start == 0 and vals[0].length == 14
+        if not ok:
+            return {'state': 'counterexample', 'cex': {'main': main, 'fraction': fname, 'N': 3, 'M': 1, 'structure': True},
+                    'detail': 'main+fraction did not merge into one entity with the main unit / ISO / whole span: %r' % [(v.start, v.length, getattr(v.value, '__dict__', v.value)) for v in vals][:2], 'queries': q}
+        got = vals[0].value.number.t
+        s = z3.Solver()
+        s.set('timeout', int(timeout * 1000))
+        exact = z3.ToReal(N) + z3.ToReal(M) / ratio
+        d = got - exact
+        s.add(N >= 1, N < 10 ** 12, M >= 0, M < ratio, z3.Or(d > z3.RealVal(1) / 2 ** 52, -d > z3.RealVal(1) / 2 ** 52))
+        t0 = time.time()
+        r = s.check()
+        st += time.time() - t0
+        q += 1
+        if r == z3.sat:
+            m = s.model()
+            n_, m_ = m.eval(N, True).as_long(), m.eval(M, True).as_long()
+            return {'state': 'counterexample', 'cex': {'main': main, 'fraction': fname, 'N': n_, 'M': m_, 'ratio': ratio},
+                    'detail': '%d %s and %d %s is not worth %d + %d/%d' % (n_, main, m_, fname, n_, m_, ratio), 'queries': q, 'solver_s': round(st, 2)}
+        if r != z3.unsat:
+            return {'state': 'inconclusive', 'detail': 'z3 unknown', 'queries': q}
+    return {'state': 'discharged', 'detail': '%d main/fraction pairs, unsat each (N < 10^12, M < ratio)' % len(mine), 'queries': q, 'solver_s': round(st, 2),
+            'sample': {'pairs': mine[:3]}}
+
+
+def compound_real__replay(slice_, cex):
+    """the same pair through the real code with ordinary floats"""
+    class _F(float):
+        pass
+    main, fname, n_, m_ = cex['main'], cex['fraction'], cex['N'], cex['M']
+    pr = _trace_compound(main, fname, float(n_), float(m_))
+    vals = pr.value
+    if cex.get('structure'):
+        bad = not (len(vals) == 1 and vals[0].value.unit == main and vals[0].start == 0 and vals[0].length == 14)
+        return {'reproduced': bad, 'detail': repr([(v.start, v.length) for v in vals])}
+    got = vals[0].value.number
+    want = n_ + m_ / cex['ratio']
+    return {'reproduced': abs(got - want) > 2 ** -20, 'detail': 'real code gives %r, the amount is %r' % (got, want)}
+
+
+def fp_compound_traced(slice_, timeout):
+    """F4 region and ulp bound on the double-precision term traced from the real code (US dollar / cent)"""
+    import z3
+    W, mode = slice_.get('w', 8), slice_.get('mode', 'exact')
+    main, iso, fname, ratio = [p for p in fraction_pairs() if p[0] == 'United States dollar' and p[2] == 'Cent'][0]
+    _Tr.MODE = 'fp'
+    N, M = z3.BitVec('N', 40), z3.BitVec('M', 40)
+    F, rm = z3.Float64(), z3.RNE()
+    pr = _trace_compound(main, fname, _Tr(z3.fpSignedToFP(rm, N, F)), _Tr(z3.fpSignedToFP(rm, M, F)))
+    got = pr.value[0].value.number.t
+    _Tr.MODE = 'real'
+    s = z3.Solver()
+    s.set('timeout', int(timeout * 1000))
+    s.add(z3.ULT(N, 1 << W), z3.UGE(N, 1), z3.ULT(M, ratio))
+    exact = z3.fpDiv(rm, z3.fpSignedToFP(rm, N * ratio + M, F), z3.FPVal(float(ratio), F))
+    if mode == 'exact':
+        s.add(z3.Not(z3.fpEQ(got, exact)))
+    else:
+        d = z3.fpToIEEEBV(got) - z3.fpToIEEEBV(exact)
+        s.add(z3.Not(z3.Or(d == 0, d == 1, d == z3.BitVecVal(-1, 64))))
+    t = time.time()
+    r = s.check()
+    st = round(time.time() - t, 2)
+    if r == z3.sat:
+        m = s.model()
+        return {'state': 'counterexample', 'cex': {'N': m[N].as_long(), 'M': m[M].as_long(), 'ratio': ratio, 'mode': mode},
+                'detail': 'N=%d M=%d: the double computed by the real merge code differs from the nearest double of the decimal amount' % (m[N].as_long(), m[M].as_long()),
+                'queries': 1, 'solver_s': st}
+    if r == z3.unsat:
+        return {'state': 'discharged', 'detail': 'unsat for 1 <= N < 2^%d, M < %d (%s)' % (W, ratio, mode), 'queries': 1, 'solver_s': st}
+    return {'state': 'inconclusive', 'detail': 'z3 unknown after %ss' % st, 'queries': 1, 'solver_s': st}
+
+
+fp_compound_traced__replay = fp_compound__replay
